@@ -155,7 +155,7 @@ func init() {
 	c05 := &scnCheck{ID: "C05", Judge: c05Judge, Nontrivial: anyFired,
 		Opts: func(tier string) (*scnOpts, int, [][]bool) {
 			o := &scnOpts{Forks: []world.Fork{world.Shanghai}, Answers: failAlphabet, NAspects: []int{1, 2}, TopValues: []int{0, 1}, TopInLens: []int{32, 0}}
-			o.Gen = scn.GenOpts{MaxDepth: 2, Effects: []scn.Effect{scn.ENone, scn.ESstore}, PreEffects: []scn.Effect{scn.ENone}, Terms: []scn.Term{scn.TStop, scn.TRevert, scn.TInvalid},
+			o.Gen = scn.GenOpts{MaxDepth: 2, Effects: []scn.Effect{scn.ENone, scn.ESstore}, PreEffects: []scn.Effect{scn.ENone}, Terms: []scn.Term{scn.TStop, scn.TRevert, scn.TInvalid, scn.TSelfdestruct},
 				Kinds: allKinds, Values: []int{0, 1}, Targets: allTgts, InLens: []int{32, 0, 33}}
 			if tier == "thorough" {
 				o.Gen.InLens = []int{32, 0, 1, 4, 33}
@@ -219,7 +219,9 @@ func init() {
 			return o, bound, [][]bool{nil}
 		},
 		More: func(tier string) []scnFamily {
-			return []scnFamily{chainFamily(tier, []scn.Effect{scn.ENone}, func(o *scnOpts) { o.Gen.Reuse = []int{0, 1} })}
+			f := chainFamily(tier, []scn.Effect{scn.ENone}, func(o *scnOpts) { o.Gen.Reuse = []int{0, 1} })
+			f.Modes = [][]bool{{true}, {true, true}} // what the first invocation recorded must survive the frames of the second
+			return []scnFamily{f}
 		},
 		Special: func(w *fw.W) { depthLimitSpecial(w, "C08") }}
 	register(&Check{ID: "C08", Level: "model_checking",
